@@ -337,8 +337,8 @@ def r2b_key_path_decor(rep, facts):
                         bad.append(f'{n["name"]} at line {n.get("l")} takes the dotted decor from `{root}.{".".join(ms)}` instead of the segment being printed')
                 else:
                     bad.append(f'{n["name"]} at line {n.get("l")} is applied to neither leaf nor dotted decor')
-        rep.check(R, f'{last_seg(d)}|decor-sources', not bad and leaf == 2 and dotted == 2, f'leaf decor from .last() ({leaf} uses), dotted decor from the segment ({dotted} uses)',
-                  f'`{last_seg(d)}`: ' + ('; '.join(bad) if bad else f'{leaf} leaf / {dotted} dotted decor writers instead of 2 / 2') +
+        rep.check(R, f'{last_seg(d)}|decor-sources', not bad and leaf >= 2 and dotted >= 2, f'leaf decor from .last() ({leaf} uses), dotted decor from the segment ({dotted} uses)',
+                  f'`{last_seg(d)}`: ' + ('; '.join(bad) if bad else f'{leaf} leaf / {dotted} dotted decor writers: prefix and suffix of both kinds are expected') +
                   ' — whitespace of headers / dotted keys is printed from a different key than the parser stored it on', facts.loc(b))
 
 
